@@ -447,8 +447,10 @@ pub enum StepResult {
 
 struct PendingFlush {
     handle: std::thread::JoinHandle<Result<bool, String>>,
-    /// how often the helper reported that it is about to wait on the stall condition
+    /// how often the helper reported that it is about to wait on the stall condition, and how
+    /// often that it came back from the wait: it is parked iff stalls == wakes + 1
     stalls: Arc<AtomicU64>,
+    wakes: Arc<AtomicU64>,
     kind: PendingKind,
 }
 
@@ -459,16 +461,16 @@ enum PendingKind {
 }
 
 thread_local! {
-    static STALL_CELL: std::cell::RefCell<Option<Arc<AtomicU64>>> = const { std::cell::RefCell::new(None) };
+    static STALL_CELL: std::cell::RefCell<Option<(Arc<AtomicU64>, Arc<AtomicU64>)>> = const { std::cell::RefCell::new(None) };
 }
 
 /// The scheduling hook of the sequential engine: it only records that the calling helper thread
 /// is about to park on the level-0 stall.
 pub fn stall_hook(ev: SchedEvent) {
-    if ev == SchedEvent::IngestStalled {
+    if ev == SchedEvent::IngestStalled || ev == SchedEvent::IngestWoke {
         STALL_CELL.with(|c| {
-            if let Some(a) = c.borrow().as_ref() {
-                a.fetch_add(1, Ordering::SeqCst);
+            if let Some((s, w)) = c.borrow().as_ref() {
+                if ev == SchedEvent::IngestStalled { s } else { w }.fetch_add(1, Ordering::SeqCst);
             }
         });
     }
@@ -612,9 +614,10 @@ impl Store {
         kind: PendingKind,
     ) -> StepResult {
         let stalls = Arc::new(AtomicU64::new(0));
-        let s2 = Arc::clone(&stalls);
+        let wakes = Arc::new(AtomicU64::new(0));
+        let (s2, w2) = (Arc::clone(&stalls), Arc::clone(&wakes));
         let handle = std::thread::spawn(move || {
-            STALL_CELL.with(|c| *c.borrow_mut() = Some(s2));
+            STALL_CELL.with(|c| *c.borrow_mut() = Some((s2, w2)));
             body()
         });
         let mut kind = Some(kind);
@@ -622,11 +625,11 @@ impl Store {
         let deadline = Instant::now() + Duration::from_secs(10);
         loop {
             if stalls.load(Ordering::SeqCst) > 0 {
-                self.pending = Some(PendingFlush { handle, stalls, kind: kind.take().unwrap() });
+                self.pending = Some(PendingFlush { handle, stalls, wakes, kind: kind.take().unwrap() });
                 return StepResult::Ok;
             }
             if handle.is_finished() {
-                self.pending = Some(PendingFlush { handle, stalls, kind: kind.take().unwrap() });
+                self.pending = Some(PendingFlush { handle, stalls, wakes, kind: kind.take().unwrap() });
                 return match self.finish_pending() {
                     Ok(()) => StepResult::Ok,
                     Err(e) => StepResult::Err(e),
@@ -635,7 +638,7 @@ impl Store {
             if Instant::now() > deadline {
                 HANGS_SEEN.fetch_add(1, Ordering::Relaxed);
                 // the helper still borrows the subject: never free it
-                self.pending = Some(PendingFlush { handle, stalls, kind: kind.take().unwrap() });
+                self.pending = Some(PendingFlush { handle, stalls, wakes, kind: kind.take().unwrap() });
                 self.pending_hung = true;
                 return StepResult::Err("a flush or ingest into a level 0 at the stall threshold neither parked on the stall nor returned within the hang limit".into());
             }
@@ -681,16 +684,45 @@ impl Store {
         }
     }
 
-    /// After a compaction step: a parked flush must go through as soon as level 0 has room.
-    fn after_compaction(&mut self) -> Result<(), String> {
-        let done = match &self.pending {
-            None => return Ok(()),
-            Some(p) => p.handle.is_finished(),
-        };
-        if done || !self.would_stall() {
+    /// After a successful compaction step (which notifies the stall condition): the parked writer
+    /// wakes up and either goes through (level 0 has room) or parks again.  Wait until it has done
+    /// one or the other, so that the next step starts from a settled state.  `wakes_before` is the
+    /// wake count sampled before the step.
+    fn after_compaction(&mut self, wakes_before: u64) -> Result<(), String> {
+        if self.pending.is_none() {
+            return Ok(());
+        }
+        if self.pending_hung {
             return self.finish_pending();
         }
-        Ok(())
+        let deadline = Instant::now() + hang_limit();
+        loop {
+            let (finished, s, w) = {
+                let p = self.pending.as_ref().unwrap();
+                (p.handle.is_finished(), p.stalls.load(Ordering::SeqCst), p.wakes.load(Ordering::SeqCst))
+            };
+            if finished {
+                return self.finish_pending();
+            }
+            if w > wakes_before && s == w + 1 {
+                // woken by this step and parked again
+                return Ok(());
+            }
+            if Instant::now() > deadline {
+                if !self.would_stall() {
+                    HANGS_SEEN.fetch_add(1, Ordering::Relaxed);
+                    self.pending_hung = true;
+                    return Err("level 0 no longer holds back ingest, but the flush or ingest parked on the stall was not woken within the hang limit (10 s)".into());
+                }
+                // level 0 is still full and nobody told the writer: it is parked as before
+                return Ok(());
+            }
+            std::thread::sleep(Duration::from_micros(20));
+        }
+    }
+
+    fn pending_wakes(&self) -> u64 {
+        self.pending.as_ref().map(|p| p.wakes.load(Ordering::SeqCst)).unwrap_or(0)
     }
 
     pub fn has_pending_flush(&self) -> bool {
@@ -711,9 +743,10 @@ impl Store {
                 if self.pending.is_none() {
                     break;
                 }
+                let w0 = self.pending_wakes();
                 match self.compact_step() {
                     Ok(true) => {
-                        if self.after_compaction().is_err() {
+                        if self.after_compaction(w0).is_err() {
                             break;
                         }
                     }
@@ -971,6 +1004,7 @@ impl Store {
         // a bare tree only sends Compact / CompactAll / Verify / Walk here; none of them uses kvs
         let kvs_opt = self.kvs;
         let kvs = || kvs_opt.expect("this step needs a KeyValueStore");
+        let mut wakes_before = 0;
         match op {
             Op::Ingest(_) | Op::IngestStalled(_) | Op::FlushStalled => StepResult::Disabled,
             Op::Put(k) | Op::PutBig(k) | Op::PutHuge(k) => {
@@ -1046,12 +1080,12 @@ impl Store {
                     }
                 }
             }
-            Op::Compact => match self.compact_step() {
+            Op::Compact => match { wakes_before = self.pending_wakes(); self.compact_step() } {
                 Err(e) => StepResult::Err(e),
                 Ok(false) => StepResult::Noop,
                 Ok(true) => {
                     self.n_compact += 1;
-                    match self.after_compaction() {
+                    match self.after_compaction(wakes_before) {
                         Ok(()) => StepResult::Ok,
                         Err(e) => StepResult::Err(e),
                     }
@@ -1060,13 +1094,14 @@ impl Store {
             Op::CompactAll => {
                 let mut n = 0;
                 loop {
+                    wakes_before = self.pending_wakes();
                     match self.compact_step() {
                         Err(e) => return StepResult::Err(e),
                         Ok(false) => break,
                         Ok(true) => {
                             n += 1;
                             self.n_compact += 1;
-                            if let Err(e) = self.after_compaction() {
+                            if let Err(e) = self.after_compaction(wakes_before) {
                                 return StepResult::Err(e);
                             }
                             if n >= 64 {
